@@ -37,6 +37,7 @@ func tinyAlphabet(c Cfg) []Op {
 		{K: "put", Key: "b", VC: "X", Dev: true},
 		{K: "sync", Dev: true},
 		{K: "merge", Dev: true},
+		{K: "merge", Arg: 1, Dev: true}, // same, scanning the rotated files in descending id order
 		{K: "restart", Dev: true},
 	}
 	for _, body := range batchBodies() {
@@ -70,6 +71,13 @@ func tinyCfgs() []Cfg {
 		out = append(out, c)
 	}
 	return out
+}
+
+// wideCfg: more shards than the implementation's maximum (1024); expensive, used at shallow depth only.
+func wideCfg() Cfg {
+	c := defaultCfg
+	c.Shards = 2048
+	return c
 }
 
 func blockCfg() Cfg {
